@@ -43,7 +43,7 @@ func runGMerge(c *Ctx) {
 		sh12.limit = 90
 		gKeyCases(c)
 	}
-	nScen := c.pick(260, 2500)
+	nScen := c.pick(260, 6000)
 	for s := 0; s < nScen; s++ {
 		gMergeScenario(c, sh11, sh12, s)
 	}
